@@ -10,11 +10,16 @@ pub trait Parser {
     fn parse<S: AsRef<str>>(input: S) -> Result<Self::Node, Self::Error>;
 }
 
+/// Checks on terminals that a grammar cannot express, e.g., that a numeral fits its integer type
+pub trait CheckedRule: pest::RuleType {
+    fn check(pair: &pest::iterators::Pair<'_, Self>) -> Result<(), String>;
+}
+
 pub trait PestParser: Sized {
     type Node: crate::syntax_tree::Node;
 
     type InternalParser: pest::Parser<Self::Rule>;
-    type Rule: pest::RuleType;
+    type Rule: CheckedRule;
     const RULE: Self::Rule;
 
     fn translate_pair(pair: pest::iterators::Pair<'_, Self::Rule>) -> Self::Node;
@@ -48,6 +53,14 @@ impl<T: PestParser> Parser for T {
             input.as_ref(),
             "parts of the input where not parsed"
         );
+        for pair in pairs.clone().flatten() {
+            if let Err(message) = <<Self as PestParser>::Rule as CheckedRule>::check(&pair) {
+                return Err(pest::error::Error::new_from_span(
+                    pest::error::ErrorVariant::CustomError { message },
+                    pair.as_span(),
+                ));
+            }
+        }
         pairs.next_back(); // remove EOI
         Ok(Self::translate_pairs(pairs))
     }
